@@ -908,7 +908,8 @@ def loss2_of(grads):
 
 # ------------------------------------------------------------------ state snapshots of the user's objects
 
-_CACHE_KEYS = ("_paramnames_", "_unique_params_idxs", "_unique_params_maps", "_number_of_params")
+_CACHE_KEYS = ("_paramnames_", "_unique_params_idxs", "_unique_params_maps", "_number_of_params",
+               "_unique_params_frozen")
 
 
 def _walk(obj, path, out, seen):
